@@ -243,8 +243,8 @@ def b_nmi_apc(a):
 def counts_args(draw, max_n=7):
     n = draw(st.integers(2, max_n))
     return {"n": n, "seed": draw(st.integers(0, 2 ** 31 - 1)), "density": draw(st.sampled_from([0.3, 0.6, 1.0])),
-            "container": draw(st.sampled_from(["dense", "dense", "csr", "coo", "lil"])),
-            "prior": draw(st.sampled_from([None, None, 0.5, 1])), "eq": draw(st.booleans()),
+            "container": draw(st.sampled_from(["dense", "dense", "csr", "csr", "coo", "lil"])),
+            "prior": draw(st.sampled_from([None, None, None, 0.5, 1])), "eq": draw(st.booleans()),
             "n_eigs": draw(st.sampled_from([None, 2, 3])), "threshold": draw(st.integers(1, 2)),
             "renumber": draw(st.booleans()), "steps": draw(st.integers(1, 6)),
             "lag": draw(st.sampled_from([1.0, 0.5, 7.0]))}
@@ -277,7 +277,7 @@ def b_builder(name):
     def b(a):
         # float counts in half of the cases: no dtype-conversion copy then stands between the caller's (sparse) matrix
         # and the arrays the builder works on
-        C = wrap(count_matrix(a).astype(float if (a["prior"] is not None or a["seed"] % 2) else np.int64), a["container"])
+        C = wrap(count_matrix(a).astype(float if (a["prior"] is not None or a["seed"] % 3) else np.int64), a["container"])
         if name == "mle":
             C = wrap(count_matrix(a), "dense")
         fn = getattr(builders, name)
